@@ -105,6 +105,30 @@ def run(ctx):
     rnd = list(gen_random(ctx.rng, ctx.budget(3000, 60000)))
     ctx.compare("find_keywords", rnd, _impl_find_keywords, nontrivial=nt, oracle=oracle_find_keywords,
                 classify=lambda a, o: "rnd_hits=%s" % (min(len(o[1]), 3) if o[0] == "ok" else o[1]))
+    # buffers of the SAME length created and dropped in quick succession (a new object may get the address of a freed one): the answer is a function of the content
+    tmpl = [(b"call StrLen here %d" % i).ljust(48, b".") for i in range(6)] + [(b"x WriteFile %d strlen" % i).ljust(48, b" ") for i in range(6)] + [b"nothing to see in this one".ljust(48, b"-")]
+    kwsets = [[b"strlen"], [b"WriteFile", b"strlen"], [b"call"]]
+    for i in range(ctx.budget(600, 6000)):
+        t = ctx.rng.choice(tmpl)
+        kws = ctx.rng.choice(kwsets)
+        data = bytes(bytearray(t))
+        out = _impl_find_keywords(["api", kws, data])
+        ctx.evals += 1
+        m = oracle_find_keywords(["api", kws, t], out)
+        del data
+        if m:
+            ctx.violation("find_keywords", ["api", kws, t], "after a history of same-length buffers: " + m, cls="history")
+            break
+    # keyword lists come from files: every non-blank LINE (bytes.splitlines: LF, CR, CRLF only) of a keyword file is one keyword, searched as listed
+    from registry_common import expected_searchers, impl_get_keywords, rand_dtree
+    trees = [rand_dtree(ctx.rng) for _ in range(ctx.budget(120, 1500))]
+
+    def kw_oracle(t, got):
+        have = sorted(((n, frozenset(ws)) for n, ws in got), key=lambda x: (x[0], sorted(x[1])))
+        if have != expected_searchers(t):
+            return f"keyword searchers {have} differ from one-per-non-empty-file with one keyword per non-blank line {expected_searchers(t)}"
+        return None
+    ctx.compare("get_keywords", trees, impl_get_keywords, nontrivial=lambda a, o: len(o) >= 1, oracle=kw_oracle)
     fa = [[kws[0], a[2]] for a in rnd[:2000] for kws in [a[1]]]
     ctx.compare("find_all", fa, _impl_find_all)
     # is_mixed_case, including pairs whose lowered forms differ and non-ASCII bytes
